@@ -156,10 +156,10 @@ func specProbeID(u *udpDriver, ttl uint8) uint16 {
 //@ requires[pre.nonnil]   u != nil && u.sink != nil && u.sentProbes != nil && u.config != nil && u.config.buffer != nil
 //@ requires[C10.send.open]  selb(isOpen, ref(u.sink))
 //@ requires[pre.past]     forall(k, 0, 65536, u.sentProbes[k].sendTime <= now())
-//@ ensures[C06.once]      ret0 == nil ==> !old(has(u.sentProbes, specProbeID(u, ttl))) && has(u.sentProbes, specProbeID(u, ttl)) && u.sentProbes[specProbeID(u, ttl)].ttl == ttl && u.sentProbes[specProbeID(u, ttl)].sendTime != 0
+//@ ensures[C01+C06.once]      ret0 == nil ==> !old(has(u.sentProbes, specProbeID(u, ttl))) && has(u.sentProbes, specProbeID(u, ttl)) && u.sentProbes[specProbeID(u, ttl)].ttl == ttl && u.sentProbes[specProbeID(u, ttl)].sendTime != 0
 // the probe is registered (matchable by the receiver) before it is on the wire: a reply can never overtake its own bookkeeping
-//@ before Sink.WriteTo assert[C02+C05+C06.send.registered] has(u.sentProbes, specProbeID(u, ttl)) && u.sentProbes[specProbeID(u, ttl)].ttl == ttl && u.sentProbes[specProbeID(u, ttl)].sendTime != 0
-//@ ensures[C06.others]    forall(k, 0, 65536, k != int(specProbeID(u, ttl)) ==> u.sentProbes[k] == old(u.sentProbes[k]) && has(u.sentProbes, k) == old(has(u.sentProbes, k)))
+//@ before Sink.WriteTo assert[C01+C02+C05+C06.send.registered] has(u.sentProbes, specProbeID(u, ttl)) && u.sentProbes[specProbeID(u, ttl)].ttl == ttl && u.sentProbes[specProbeID(u, ttl)].sendTime != 0
+//@ ensures[C01+C06.others]    forall(k, 0, 65536, k != int(specProbeID(u, ttl)) ==> u.sentProbes[k] == old(u.sentProbes[k]) && has(u.sentProbes, k) == old(has(u.sentProbes, k)))
 //@ ensures[C05.stamp]     ret0 == nil ==> wrN == old(wrN)+1 && u.sentProbes[specProbeID(u, ttl)].sendTime <= wrClock && u.sentProbes[specProbeID(u, ttl)].sendTime >= old(now())
 //@ ensures[C05.past]      forall(k, 0, 65536, u.sentProbes[k].sendTime <= now())
 //@ ensures[C06.wire.ttl]  ret0 == nil ==> ghost(ser.ttl) == int(ttl) && ghost(ser.proto) == 17
@@ -180,7 +180,7 @@ func specProbeID(u *udpDriver, ttl uint8) uint16 {
 //@ ensures[C09.recv.class]  ret1 != nil && !chain(ret1, *common.ReceiveProbeNoPktError) && !chain(ret1, *common.BadPacketError) ==> ioFail
 //@ ensures[C09.recv.io]     ioFail == old(ioFail) || ret1 != nil
 //@ ensures[C01.recv.fresh]  ret0 != nil ==> fresh(ret0)
-//@ ensures[C09.recv.state]  forall(k, 0, 65536, u.sentProbes[k] == old(u.sentProbes[k]) && has(u.sentProbes, k) == old(has(u.sentProbes, k)))
+//@ ensures[C01+C09.recv.state]  forall(k, 0, 65536, u.sentProbes[k] == old(u.sentProbes[k]) && has(u.sentProbes, k) == old(has(u.sentProbes, k)))
 //@ modifies u.mu, packets.FrameParser.IP4, packets.FrameParser.IP6, packets.FrameParser.TCP, packets.FrameParser.ICMP4, packets.FrameParser.ICMP6, packets.FrameParser.Payload, packets.FrameParser.Layers, gopacket.DecodingLayerParser, elems(u.buffer), ghost clock, ghost ioFail
 
 // C11 isolation (strict mode, as the runner configures UDP): a packet genuine for two runs forces them to share the
